@@ -120,6 +120,11 @@ class Allow(e2.System):
                     if out != want:
                         probs.append((f"C11|active-probe|{g[0]}.{g[1]}|{out}",
                                       f"active additions {list(model)}: {g[0]}.{g[1]} via pickle.{entry} is {out}, expected {want}"))
+        if model is None:
+            for slot, fn in (("load", pickle.load), ("loads", pickle.loads), ("cload", _pickle.load), ("cloads", _pickle.loads)):
+                if fn is not ORIG[slot]:
+                    probs.append((f"C11|inactive-but-hooked|{slot}", f"no activation is in force but pickle binding {slot} is not the original function "
+                                  f"(an earlier activation's additions would still apply)"))
         if ml.ML_ALLOWLIST != pristine():
             diff = _dictdiff(pristine(), ml.ML_ALLOWLIST)
             probs.append(("C11|builtin-allowlist-mutated", f"ML_ALLOWLIST changed: {diff}"))
